@@ -35,6 +35,7 @@ class Seg:
     guard: Optional[str] = None
     arg: Optional[str] = None      # for "enc": dotted text of what is encoded
     tag: Optional[str] = None      # key when the segment was read out of a local dict literal (``headers["X-Auth"]``)
+    xform: str = "$"               # for "enc": what is done to the variable ``arg`` before it is encoded ("$" = nothing)
 
     def label(self) -> str:
         return self.text if self.kind != "enc" else f"{self.text}:{self.arg}"
@@ -142,9 +143,9 @@ class Builder:
             last = nm.split(".")[-1]
             if last in ENCODERS and e.args:
                 extra = sorted(k.arg for k in e.keywords if k.arg)
-                arg = e.args[0]
-                atxt = A.dotted(arg) or N.canon(arg)
-                return [Seg("enc", last + (f"({','.join(extra)})" if extra else ""), e, None, atxt)]
+                arg = N.expand(self.fn, e.args[0]) if not isinstance(e.args[0], ast.Name) else e.args[0]
+                var, xf = N.split_arg(arg)
+                return [Seg("enc", last + (f"({','.join(extra)})" if extra else ""), e, None, var if var is not None else N.canon(arg), None, xf)]
             if isinstance(e.func, ast.Attribute):
                 recv = e.func.value
                 if e.func.attr in ("encode", "decode") and len(e.args) <= 1:
